@@ -1311,6 +1311,18 @@ func c02ClassErrTC(r *gen.Rand, st string) c02TC {
 }
 
 func c02GenData(r *gen.Rand) string {
+	// one payload in sixteen is large: the response that echoes it is a single wire message of more
+	// than 128 KiB (a compressor's block / window boundary) while the request stays below the
+	// server's 200 KB receive limit
+	if r.Intn(16) == 0 {
+		n := gen.Pick(r, []int{66000, 70000, 90000})
+		b := make([]byte, n)
+		for i := range b {
+			b[i] = byte((i / 61) % 251)
+		}
+		copy(b, r.Bytes(64))
+		return hex.EncodeToString(b)
+	}
 	switch r.Intn(5) {
 	case 0:
 		return ""
